@@ -126,9 +126,24 @@ def spec_of(ops: list[dict]) -> dict:
     return base_spec(paths, COMPONENTS)
 
 
+def level_params(op: dict) -> tuple[list[dict], list[dict]]:
+    return [p for p in op["params"] if p["level"] == "path"], [p for p in op["params"] if p["level"] == "op"]
+
+
 def ordered_params(op: dict) -> list[dict]:
-    """path-level first, then operation-level (as the loader concatenates them)"""
-    return [p for p in op["params"] if p["level"] == "path"] + [p for p in op["params"] if p["level"] == "op"]
+    """the operation's parameters as a caller sees them in the document: path-level ones, each operation-level one
+    overriding the declaration with the same (name, in) or added after them (only used to build calls; the Coq
+    model has its own transcription of the loader's merge, Wire.merge_params)"""
+    out, ol = level_params(op)
+    out = list(out)
+    for p in ol:
+        for i, q in enumerate(out):
+            if (q["name"], q["in"]) == (p["name"], p["in"]):
+                out[i] = p
+                break
+        else:
+            out.append(p)
+    return out
 
 
 # ------------------------------------------------------------------------------------------- values
@@ -258,7 +273,8 @@ def gen_op(rng, idx: int, flavour: str = "plain") -> dict:
     for v in vnames:
         t = rng.choice(["str", "str", "int", "int", "date", "enum", "datetime", "bool"]) if flavour != "safe" \
             else rng.choice(["str", "int", "date"])
-        params.append({"name": v, "in": "path", "required": True, "ty": t, "array": False,
+        params.append({"name": v, "in": "path", "required": True, "ty": t,
+                       "array": flavour != "safe" and t in ("str", "int", "enum") and rng.random() < 0.15,
                        "level": rng.choice(["path", "op"]), **({"enum": rng.choice(list(ENUMS))} if t == "enum" else {}),
                        **({"slashy": True} if t == "str" and flavour != "safe" and rng.random() < 0.25 else {})})
     for n in rng.sample(Q_NAMES, rng.choice([0, 1, 2, 3, 4, 6])):
@@ -272,9 +288,9 @@ def gen_op(rng, idx: int, flavour: str = "plain") -> dict:
                        "array": flavour != "safe" and rng.random() < 0.05, "level": rng.choice(["path", "op", "op"]),
                        **({"enum": "Color"} if t == "enum" else {})})
     if rng.random() < 0.25:
-        t = "str" if flavour == "safe" else rng.choice(["str", "str", "enum", "int"])
+        t = "str" if flavour == "safe" else rng.choice(["str", "str", "enum", "int", "bool"])
         params.append({"name": rng.choice(C_NAMES), "in": "cookie", "required": rng.random() < 0.3, "ty": t,
-                       "array": False, "level": rng.choice(["path", "op"]), **({"enum": "Color"} if t == "enum" else {})})
+                       "array": flavour != "safe" and rng.random() < 0.15, "level": rng.choice(["path", "op"]), **({"enum": "Color"} if t == "enum" else {})})
     rng.shuffle(params)
     r = rng.random()
     body: list[str] = []
@@ -573,6 +589,11 @@ def run_spec(ops: list[dict], calls: list[tuple[int, dict]]) -> tuple[list[Any],
 
 
 # ------------------------------------------------------------------------------------------- the oracle
+def wire_simple_text(v: dict) -> str:
+    """OpenAPI `simple` style (path, header; taken for cookies too): an array is one comma-separated value"""
+    return ",".join(wire_text(x) for x in v["items"]) if v["t"] == "arr" else wire_text(v)
+
+
 def wire_text(v: dict) -> str:
     """canonical wire text of a scalar argument, from the property: the caller's value as OpenAPI renders it"""
     t = v["t"]
@@ -597,7 +618,7 @@ def oracle(op: dict, a: dict, obs: dict) -> list[str]:
     if r["method"] != op["method"].upper():
         fails.append(f"method {r['method']} != {op['method'].upper()}")
     given = {(loc, name): v for loc, name, v in a["params"]}
-    want_path = "".join(s[1] if s[0] == "lit" else wire_text(given[("path", s[1])]) for s in op["path"])
+    want_path = "".join(s[1] if s[0] == "lit" else wire_simple_text(given[("path", s[1])]) for s in op["path"])
     if r["path"] != want_path:
         fails.append(f"path {r['path']!r} != {want_path!r}")
     else:
@@ -611,7 +632,7 @@ def oracle(op: dict, a: dict, obs: dict) -> list[str]:
                     want_segs.append(cur)
                     cur = more
             else:
-                cur += wire_text(given[("path", x)])
+                cur += wire_simple_text(given[("path", x)])
         want_segs.append(cur)
         if r["segs"] != want_segs:
             fails.append(f"path segments {r['segs']} != {want_segs} (a path value is not percent-encoded)")
@@ -628,7 +649,10 @@ def oracle(op: dict, a: dict, obs: dict) -> list[str]:
         for (l2, name), v in given.items():
             if l2 != loc:
                 continue
-            vals = [wire_text(x) for x in v["items"]] if v["t"] == "arr" else [wire_text(v)]
+            if loc == "query":       # style=form, explode=true (the default): one name=value pair per item
+                vals = [wire_text(x) for x in v["items"]] if v["t"] == "arr" else [wire_text(v)]
+            else:                    # style=simple: one comma-separated value
+                vals = [wire_simple_text(v)]
             if vals:
                 want[name.lower() if lower else name] = vals
         if got != want:
@@ -660,7 +684,7 @@ def oracle(op: dict, a: dict, obs: dict) -> list[str]:
 
 
 # ------------------------------------------------------------------------------------------- Coq printers
-GUARD_FINDINGS = {1: "F04j", 2: "F04c", 3: "F04d", 4: "F04f", 5: "F04i", 6: "F04k"}   # bit k of Corr.C04.run
+GUARD_FINDINGS = {1: "F04j", 2: "F04c", 3: "F04d", 4: "F04k"}   # bit k of Corr.C04.run
 LOC = {"path": "Path", "query": "Query", "header": "Header", "cookie": "Cookie"}
 TY = {"str": "TStr", "int": "TInt", "bool": "TBool", "enum": "TEnum", "date": "TDate", "datetime": "TDateTime"}
 
@@ -702,10 +726,15 @@ def c_bval(bv: dict) -> str:
     return f"(BBytes {c_bytes(bv['v'])})"
 
 
-def c_op(op: dict) -> str:
+def c_params(ps: list[dict]) -> str:
+    return clist(f"{{| p_name := {cstr(p['name'])}; p_loc := {LOC[p['in']]}; p_required := {cbool(p['required'])}; "
+                 f"p_ty := {TY[p['ty']]}; p_array := {cbool(p['array'])} |}}" for p in ps)
+
+
+def c_op(op: dict, merged: bool = True) -> str:
+    """merged=False: o_params is left empty; the correspondence driver fills it with Wire.merge_params"""
     segs = clist(f"(Lit {cstr(s[1])})" if s[0] == "lit" else f"(Var {cstr(s[1])})" for s in op["path"])
-    ps = clist(f"{{| p_name := {cstr(p['name'])}; p_loc := {LOC[p['in']]}; p_required := {cbool(p['required'])}; "
-               f"p_ty := {TY[p['ty']]}; p_array := {cbool(p['array'])} |}}" for p in ordered_params(op))
+    ps = c_params(ordered_params(op)) if merged else "[]"
     return (f"{{| o_method := {cstr(op['method'].upper())}; o_path := {segs}; o_params := {ps}; "
             f"o_body := {clist(cstr(c) for c in op['body'])}; o_body_required := {cbool(op['body_required'])} |}}")
 
@@ -747,7 +776,9 @@ def c_obs(obs: dict) -> str:
 
 def c_case(case: dict) -> str:
     op, a = case["input"]["op"], case["input"]["args"]
-    return f"(({name_table(op)}, {c_op(op)}, {c_args(a, case['leaf'])}), {c_obs(case['obs'])})"
+    pl, ol = level_params(op)
+    return (f"(({name_table(op)}, ({c_params(pl)}, {c_params(ol)}), {c_op(op, merged=False)}, "
+            f"{c_args(a, case['leaf'])}), {c_obs(case['obs'])})")
 
 
 # ------------------------------------------------------------------------------------------- running
